@@ -8,10 +8,13 @@ use crate::streaming::{
 use bytes::BytesMut;
 use error_set::ErrContext;
 use iggy::{error::IggyError, utils::byte_size::IggyByteSize};
+#[cfg(not(kani))]
 use std::{
     fs::{File, OpenOptions},
     os::unix::prelude::FileExt,
 };
+#[cfg(kani)]
+use iggy::verif_model::fs::stdfs::{File, FileExt, OpenOptions};
 use std::{
     io::ErrorKind,
     sync::{
@@ -19,7 +22,10 @@ use std::{
         Arc,
     },
 };
+#[cfg(not(kani))]
 use tokio::task::spawn_blocking;
+#[cfg(kani)]
+use iggy::verif_model::fs::task::spawn_blocking;
 use tracing::{error, trace, warn};
 
 /// A dedicated struct for reading from the log file.
@@ -40,6 +46,7 @@ impl SegmentLogReader {
             .map_err(|_| IggyError::CannotReadFile)?;
 
         // posix_fadvise() doesn't exist on MacOS
+        #[cfg(not(kani))]
         #[cfg(not(target_os = "macos"))]
         {
             use std::os::unix::io::AsRawFd;
